@@ -149,6 +149,9 @@ def rule_reformat(ctx: Ctx) -> RuleResult:
     anchor = ctx.p.function("resolva.template.construct_regular_expression")
     if any(isinstance(n, ast.Constant) and isinstance(n.value, str) and n.value.endswith("$") for n in own_nodes(anchor.node)):
         reasons.append("resolva anchors with '$', which also matches before a trailing newline")
+    inj = cfgrules.rule_mapinj(ctx)
+    for name, key, ks in getattr(inj, "_found", []):
+        reasons.append(f"path_mapping[{key!r}] ({name}) is not one-to-one ({ks})")
     f = ctx.p.function("spil.sid.pathops.fs_resolver.path_to_dict")
     flow = flow_of(f.node)
     cfg = cfg_of(f.node)
